@@ -3247,7 +3247,8 @@ namespace gch
 //    ~small_vector_base           (void)                         = impl;
 
       GCH_CPP20_CONSTEXPR
-      small_vector_base (void) noexcept
+      small_vector_base (void)
+        noexcept (std::is_nothrow_default_constructible<alloc_ty>::value)
       {
         set_default ();
       }
